@@ -238,14 +238,16 @@ theorem admitStep_winv (cfg : Cfg) (s : State) (f : Fresh) (h : WInv cfg s.now s
   simp only
   split
   · exact ⟨this, rfl⟩
-  · split <;> exact ⟨this, rfl⟩
+  · split
+    · unfold startFallback; split <;> exact ⟨this, rfl⟩
+    · exact ⟨this, rfl⟩
 
 theorem stepS_winv (cfg : Cfg) (s : State) (op : Op) (hs : SInv cfg s) (h : WInv cfg s.now s.circ) :
     WInv cfg (stepS cfg s op).now (stepS cfg s op).circ := by
   have hb := hs.circ.bounded
   cases op with
   | adv ms => exact winv_mono cfg s.now (s.now + ms) s.circ (Nat.le_add_right _ _) h
-  | arrive c sc tag => simp only [stepS]; split <;> exact h
+  | arrive c sc tag fb => simp only [stepS]; split <;> exact h
   | poll c =>
     simp only [stepS]
     split
@@ -257,14 +259,18 @@ theorem stepS_winv (cfg : Cfg) (s : State) (op : Op) (hs : SInv cfg s) (h : WInv
       · apply pollRunning_winv cfg _ _ ha.1
         rw [ha.2]; exact (tryAcquire_inv cfg s.circ s.now hs.circ).bounded
       · exact ha.1
-    · exact pollRunning_winv cfg s c h hb
+    · split
+      · unfold pollFalling; split <;> exact h
+      · exact pollRunning_winv cfg s c h hb
   | drop c =>
     simp only [stepS]
     split
     · exact h
     · split
-      · unfold dropRunning; exact releaseTrial_winv cfg _ _ _ h
       · exact h
+      · split
+        · unfold dropRunning; exact releaseTrial_winv cfg _ _ _ h
+        · exact h
   | forceOpen => exact transitionTo_winv cfg s.now s.circ _ h
   | forceClosed => exact transitionTo_winv cfg s.now s.circ _ h
   | reset =>
